@@ -140,6 +140,16 @@ def r3(ctx):
     p, hits = guard_check(f, un, same)
     ctx.check("C17.R3", p is None, key(f, "owner-check"), site(f, un[0]), "the pid file is removed without checking that it still contains this master's pid: another instance's pid file would be deleted", "unlink only if file pid == self.pid",
               path=p and g.fmt_path(p))
+    # ... and the converse, evaluated: a file that holds this master's pid *is* removed, whatever else the object remembers
+    # (how the pid got there -- written by create() or adopted from a predecessor with the same pid -- does not matter)
+    def atom_of(e):
+        if isinstance(e, ast.Call) and isinstance(e.func, ast.Name) and e.func.id == "int" and ".read()" in norm(e):
+            return "FILEPID"
+        return None
+    outs = Explorer(f, atom_of=atom_of).run(g.entry, {"FILEPID": 4242, "self.pid": 4242, "self.fname": "/run/gunicorn.pid"}, watch={n.id: "unlink" for n in un})
+    rets = [o for o in outs if o.kind == "return"]
+    ctx.check("C17.R3", bool(rets) and all("unlink" in o.events for o in rets), key(f, "own-file-removed"), site(f),
+              "Pidfile.unlink() can return without removing a pid file that contains this master's own pid: the file outlives the master (stale pid file after a clean exit)", "own pid file always removed")
     for c in calls_to(repo, f, ["os.unlink", "os.remove"]):
         ctx.check("C17.R3", norm(c.args[0]) == "self.fname", key(f, "unlinks-own-path"), site(f, c), "unlink removes something other than self.fname", "os.unlink(self.fname)")
     ops = [c for c in walk_own(f.node) if isinstance(c, ast.Call) and norm(c.func) == "open"]
